@@ -754,6 +754,7 @@ func Run(r *hk.Run) {
 		c.ex([]string{"cfg"}) // releases the temp dir (bad-op answer ignored)
 	}
 	oracleOnly(r)
+	bigBlobs(r)
 	probes(r)
 }
 
@@ -797,6 +798,74 @@ func oracleOnly(r *hk.Run) {
 			r.Distinct("oracle-only:" + c.shape)
 			c.ex([]string{"cfg"})
 		}
+	}
+}
+
+// bigBlobs: blobs far beyond the chunk size (1 MiB + 2 … 3 MiB; plain and schema-looking) through every
+// combinator and leaf kind: receive, fetch back byte for byte, stat, enumerate, remove (oracle only).
+func bigBlobs(r *hk.Run) {
+	rnd := r.R
+	specs := []string{"mem", "localdisk", "diskpacked:1500000", "cond mem mem", "cond localdisk mem", "overlay mem mem", "shard mem mem",
+		"replica mem localdisk", "ns mem", "proxy:5000000 mem memcache:4000000", "proxy:100 mem memcache:100", "blobpacked"}
+	sizes := []int{1<<20 + 2, 1<<20 + 1, 3 << 20, 1 << 20}
+	if r.Thorough() {
+		sizes = append(sizes, 5<<20+7, 2<<20-1)
+	}
+	for _, spec := range specs {
+		n, _, ok := ParseTree(strings.Fields(spec))
+		if !ok {
+			continue
+		}
+		c := &caseRun{r: r, ex: NewExec(), ref: map[string][]byte{}, label: n.String() + "/big", shape: n.Shape(), removed: map[string]bool{},
+			noModel: true, where: map[string]map[int]bool{}}
+		if out := c.op("cfg mem // " + spec); out != "ok" {
+			r.Note("cannot build " + spec + ": " + out)
+			continue
+		}
+		for i, sz := range sizes {
+			v := rnd.Bytes(64)
+			big := make([]byte, sz)
+			for j := range big {
+				big[j] = v[j%64] ^ byte(j>>12)
+			}
+			if i%2 == 1 {
+				copy(big, []byte("{\"camliVersion\": 1,\n  \"camliType\": \"bytes\",\n  \"pad\": \""))
+				for j := 60; j < sz-2; j++ {
+					big[j] = 'a' + byte(j%23)
+				}
+				big[sz-2], big[sz-1] = '"', '}'
+			}
+			sum := sha256.Sum224(big)
+			key := "sha224-" + hex.EncodeToString(sum[:])
+			hkey := hk.Hex([]byte(key))
+			r.Hit("bigblob")
+			if out := c.op("recv " + hkey + " " + hk.Hex(big)); out != fmt.Sprintf("sized %d", sz) {
+				c.r.Fail("bigblob-receive", fmt.Sprintf("%s: receive of a %d-byte blob", c.label, sz), fmt.Sprintf("sized %d", sz), trunc(out), nil)
+				continue
+			}
+			c.ref[key] = big
+			if out := c.op("fetch " + hkey); out != "bytes "+hk.Hex(big) {
+				c.r.Fail("bigblob-fetch", fmt.Sprintf("%s: fetch of a %d-byte blob", c.label, sz), "the bytes received", trunc(out), nil)
+			}
+			if out := c.op("stat " + hkey); out != fmt.Sprintf("stats %s:%d", hkey, sz) {
+				c.r.Fail("bigblob-stat", fmt.Sprintf("%s: stat of a %d-byte blob", c.label, sz), fmt.Sprint(sz), trunc(out), nil)
+			}
+		}
+		c.paging(2)
+		for k := range c.ref {
+			if strings.HasPrefix(c.label, "blobpacked") {
+				break
+			}
+			hkey := hk.Hex([]byte(k))
+			c.op("rm " + hkey)
+			delete(c.ref, k)
+			if out := c.op("fetch " + hkey); out != "notexist" {
+				c.r.Fail("bigblob-remove", c.label+": big blob still fetched after remove", "notexist", trunc(out), nil)
+			}
+			break
+		}
+		r.Distinct("big:" + c.shape)
+		c.ex([]string{"cfg"})
 	}
 }
 
